@@ -127,11 +127,7 @@ def run_case(sname, cfg, pname, seed, tier, res=None, only=None):
         return vio
     c32, c64 = Caller(s, cfg, m32, dtype=torch.float32), Caller(s, cfg, m64, dtype=torch.float64)
     D = c32.D
-    dom = s.cell_domain(cfg)
-    if sname in ("Sigmoid", "CompositeCDFTransform"):
-        # moderate magnitude: beyond |T x| = 4 the logit/sigmoid pair is ill-conditioned in float32 (1/(1-sigmoid) > 55)
-        t = float(cfg.get("temperature", 1))
-        dom = (-4.0 / t, 4.0 / t)
+    dom = s.moderate_domain(cfg)
     if only:
         jobs = [(np.asarray(only["row"]), only["tag"], only["direction"])]
     else:
